@@ -8,7 +8,7 @@ ROOT_VERIFY = "tough::schema::verify::<impl tough::schema::Root>::verify_role"
 
 
 def run(chk, prog):
-    chk.rules_live = ["R1", "R2", "R3", "R4", "R5", "R6", "R7", "R8"]
+    chk.rules_live = ["R1", "R2", "R3", "R4", "R5", "R6", "R7", "R8", "R9"]
     chk.explanation = (
         "Must-pass-through / who-may-write rules over the MIR of tuftool::root: every subcommand that "
         "writes a root loaded from disk reaches write_file only through clear_sigs on that very root "
@@ -93,6 +93,10 @@ def run(chk, prog):
     c01.verifier(SubCheck(chk, "R7"), prog, c01.ROOT_VERIFY, "root")
     # R8: `sign` attaches signatures of an algorithm Root::verify_role (Key::verify) checks with
     c01.signer_verifier_agreement(chk, prog, "R8")
+    # R9: `sign` counts signatures (D12): at least every signature SignedRole::new attaches is by a key the
+    # root lists for the root role
+    from . import c10
+    c10.r19_signs_only_with_role_keys(chk, prog, "R9")
 
 
 def r2_effects(chk, prog):
